@@ -107,7 +107,9 @@ func (r *Report) AddExtra(k string, n int64) {
 
 func (r *Report) Note(format string, a ...any) {
 	r.mu.Lock()
-	r.Notes = append(r.Notes, fmt.Sprintf(format, a...))
+	if len(r.Notes) < 200 {
+		r.Notes = append(r.Notes, trunc(fmt.Sprintf(format, a...), 2000))
+	}
 	r.mu.Unlock()
 }
 
